@@ -41,6 +41,11 @@ pub(crate) fn run() -> Result<(), Error> {
     }
     let cwd = env::current_dir()?;
     let want = redo::abs_path(&cwd, Path::new(&want));
+    // Look where the builder looks: it names a target through the symbolic links in its
+    // directory part (relpath does that), so the rules that apply are those above the
+    // physical directory.  Walking up the path as written listed, for a/link/x with
+    // a/link -> ../b/real, the scripts of a/ instead of those of b/ that redo runs.
+    let want = cwd.join(redo::relpath(&want, &cwd)?);
     for df in redo::possible_do_files(want) {
         let do_path = df.do_dir().join(df.do_file());
         let relpath = redo::relpath(&do_path, &cwd)?;
